@@ -8,7 +8,7 @@ EXPLANATION = 'bounded stand-in: snapshots before/after validation, repeatabilit
 
 def extra_obligations(prog):
     from props import frames
-    return frames.validation_observes_only(prog) + frames.registry_private(prog)
+    return frames.validation_observes_only(prog) + frames.registry_private(prog) + frames.rules_stateless(prog)
 
 
 def bounded_jobs(tier, seed):
